@@ -294,9 +294,13 @@ func UnmarshalAttribute(attr *api.Attribute) (bgp.PathAttributeInterface, error)
 			length += uint16(tlv.Len())
 		}
 		t := bgp.BGP_ATTR_TYPE_LS
+		flags := bgp.PathAttrFlags[t]
+		if length > 255 {
+			flags |= bgp.BGP_ATTR_FLAG_EXTENDED_LENGTH
+		}
 		pathAttributeLs := &bgp.PathAttributeLs{
 			PathAttribute: bgp.PathAttribute{
-				Flags:  bgp.PathAttrFlags[t],
+				Flags:  flags,
 				Type:   t,
 				Length: length,
 			},
@@ -3555,6 +3559,8 @@ func UnmarshalSRSegments(s []*api.TunnelEncapSubTLVSRSegmentList_Segment) ([]bgp
 					FuncLen:  uint8(ebs.FuncLen),
 					ArgLen:   uint8(ebs.ArgLen),
 				}
+				// the optional structure follows the SID: 8 more octets
+				seg.Length += 8
 			}
 			segments[i] = seg
 		}
@@ -3585,7 +3591,8 @@ func UnmarshalPrefixSID(psid *api.PrefixSID) (*bgp.PathAttributePrefixSID, error
 					Length: tlvLength,
 				},
 			}
-			s.Length += tlvLength
+			// the TLV's own header (type, length) and its value
+			s.Length += 3 + tlvLength
 			// Storing Sub TLVs in a Service TLV
 			o.SubTLVs = append(o.SubTLVs, tlvs...)
 			// Adding Service TLV to Path Attribute TLV slice.
@@ -3602,15 +3609,16 @@ func UnmarshalPrefixSID(psid *api.PrefixSID) (*bgp.PathAttributePrefixSID, error
 					Length: tlvLength,
 				},
 			}
-			s.Length += tlvLength
+			s.Length += 3 + tlvLength
 			o.SubTLVs = append(o.SubTLVs, tlvs...)
 			s.TLVs = append(s.TLVs, o)
 		default:
 			return nil, fmt.Errorf("unknown or not implemented Prefix SID type: %+v", tlv)
 		}
 	}
-	// Final Path Attribute Length is 3 bytes of the Path Attribute header longer
-	s.Length += 3
+	if s.Length > 255 {
+		s.Flags |= bgp.BGP_ATTR_FLAG_EXTENDED_LENGTH
+	}
 	return s, nil
 }
 
